@@ -30,6 +30,8 @@ pub struct Spec {
     pub skip_pass2: Option<usize>,
     /// collect the state sections (C06) or only outputs (C24)
     pub sections: bool,
+    /// `defines` of the build (pass 2 evaluates #[ifdef]/#[ifndef] against them)
+    pub defines: Vec<String>,
 }
 
 #[derive(Default)]
@@ -282,6 +284,9 @@ pub fn run(spec: &Spec) -> Out {
         out.sections.push(("post1:file_dag".to_string(), type_dag::dump_file()));
     }
     let mut context = Context::default();
+    for d in &spec.defines {
+        context.config.defines.insert(resource_table::insert_str(d));
+    }
     let mut ir = veryl_analyzer::ir::Ir::default();
     for (idx, parser) in &ctxs {
         if spec.skip_pass2 == Some(*idx) {
@@ -338,6 +343,10 @@ fn load_files(v: &Value) -> Vec<(String, String)> {
         .collect()
 }
 
+fn defines(v: &Value) -> Vec<String> {
+    v["defines"].as_array().map(|a| a.iter().filter_map(|x| x.as_str().map(|s| s.to_string())).collect()).unwrap_or_default()
+}
+
 fn idxs(v: &Value) -> Vec<usize> {
     v.as_array().unwrap().iter().map(|x| x.as_u64().unwrap() as usize).collect()
 }
@@ -378,6 +387,7 @@ pub fn e2e(arg: &str) -> String {
         order: idxs(&v["cap_order"]),
         pad: v["cap_pad"].as_u64().unwrap_or(0) as usize,
         capture: Some(target),
+        defines: defines(&v),
         ..Default::default()
     });
     let a = match a {
@@ -403,6 +413,7 @@ pub fn e2e(arg: &str) -> String {
         pad,
         skip_pass2: Some(target),
         sections: true,
+        defines: defines(&v),
         ..Default::default()
     });
     let c = run_thread(Spec {
@@ -412,6 +423,7 @@ pub fn e2e(arg: &str) -> String {
         restore: Some((target, bytes.clone())),
         skip_pass2: Some(target),
         sections: true,
+        defines: defines(&v),
         ..Default::default()
     });
     let (b, c) = match (b, c) {
@@ -538,6 +550,7 @@ pub fn order(arg: &str) -> String {
             files: files.clone(),
             order: ord.clone(),
             pad: pads.get(k).copied().unwrap_or(0),
+            defines: defines(&v),
             ..Default::default()
         });
         let mut o = match o {
